@@ -51,6 +51,10 @@ type WriteRec struct {
 	// Create is set for Vault.Create (Plan then holds the copy of the whole plan).
 	Create bool
 	Plan   *workflow.Plan
+	// Full is a copy of the object's own row as it was handed to the vault (definition fields included, children
+	// omitted): replaying a write must hand the vault what the engine handed it, not a stub holding only id and state —
+	// whether an Update* call touches more than the state columns is the vault's business (DESIGN §8 item 14).
+	Full any
 	// Tag is the object tag ("p0", "p0/b1", "p0/pre", "p0/b1/s0", "p0/b1/s0/a1"); PlanIdx the plan it belongs to (-1 unknown).
 	Tag     string
 	PlanIdx int
@@ -91,11 +95,15 @@ func (e Event) String() string {
 
 func ms(d time.Duration) float64 { return float64(d) / float64(time.Millisecond) }
 
-// LongHoldGate: a gate value >= LongHoldGate keeps the invocation parked for at least LongHold (used by C07 to give a
-// continuous check ample time — two orders of magnitude more than its delay — to be re-run while its scope executes).
+// LongHoldGate: a gate value >= LongHoldGate keeps the invocation parked until every continuous check above it (plan
+// level and its block's, delay <= 2 ms) has been entered a second time — i.e. was re-run while its scope executed — or
+// until LongHoldMax of harness-observed time (controller ticks, not wall clock) has passed without that, which the
+// release event records (C07 "keeps being re-run"; no rate and no buffer size is assumed, see DESIGN §8).
 const (
 	LongHoldGate = 100
-	LongHold     = 250 * time.Millisecond
+	LongHoldMax  = 3 * time.Second
+	// LongHoldExpired marks the release event of a long hold that ended by LongHoldMax.
+	LongHoldExpired = " long-hold-expired"
 )
 
 type parkedInv struct {
@@ -105,6 +113,8 @@ type parkedInv struct {
 	seq   int
 	ch    chan struct{}
 	since time.Time
+	// sinceBeat is the controller tick count when the invocation parked
+	sinceBeat int64
 }
 
 type objInfo struct {
@@ -126,6 +136,11 @@ type Lab struct {
 	parked       []*parkedInv
 	parkSeq      int
 	lastProgress time.Time // last non-continuous-check event
+	// beat counts the ticks of the controller goroutine (nominally one per 200 µs) and progressBeat is its value at the
+	// last progress: quiet time is the smaller of wall-clock time and observed ticks, so a freeze of the whole process
+	// or a machine too loaded to schedule the harness itself cannot look like "nothing happened for the stall window".
+	beat, progressBeat int64
+	openWrites         int // storage writes begun and not yet returned (cont-check writes included)
 	objs         map[uuid.UUID]objInfo
 	notes        []string
 
@@ -182,6 +197,14 @@ func newLab(sc *Scenario) *Lab {
 	}
 }
 
+// progressed records non-continuous-check progress (l.mu must be held).
+func (l *Lab) progressed() {
+	l.lastProgress = time.Now()
+	l.progressBeat = l.beat
+}
+
+const beatPeriod = 200 * time.Microsecond
+
 func (l *Lab) note(format string, a ...any) {
 	l.mu.Lock()
 	defer l.mu.Unlock()
@@ -198,7 +221,7 @@ func (l *Lab) enter(tag string, ref Ref, ctx context.Context) int {
 	l.open[tag]++
 	if !ref.IsCont() {
 		l.openNonCont++
-		l.lastProgress = time.Now()
+		l.progressed()
 	}
 	l.add(Event{Kind: EvEnter, Tag: tag, Ref: ref, N: n, CtxDone: ctx.Err() != nil, PlanIdx: ref.Plan, At: time.Since(l.start)})
 	return n
@@ -210,7 +233,7 @@ func (l *Lab) exit(tag string, ref Ref, n int, out Outcome, ctx context.Context)
 	l.open[tag]--
 	if !ref.IsCont() {
 		l.openNonCont--
-		l.lastProgress = time.Now()
+		l.progressed()
 	}
 	l.add(Event{Kind: EvExit, Tag: tag, Ref: ref, N: n, Out: out, CtxDone: ctx.Err() != nil, PlanIdx: ref.Plan, At: time.Since(l.start)})
 }
@@ -222,7 +245,7 @@ func (l *Lab) api(kind EvKind, planIdx int, err error) {
 	if err != nil {
 		e.Err = " err=" + err.Error()
 	}
-	l.lastProgress = time.Now()
+	l.progressed()
 	l.add(e)
 }
 
@@ -232,11 +255,16 @@ func (l *Lab) park(tag string, n, prio int) {
 	l.mu.Lock()
 	l.parkSeq++
 	p.seq = l.parkSeq
+	p.sinceBeat = l.beat
 	l.parked = append(l.parked, p)
 	l.mu.Unlock()
+	hold := l.maxHold
+	if prio >= LongHoldGate {
+		hold = 10 * LongHoldMax // safety net only: long holds are ended by the controller
+	}
 	select {
 	case <-p.ch:
-	case <-time.After(l.maxHold):
+	case <-time.After(hold):
 		l.mu.Lock()
 		l.removeParked(p)
 		l.mu.Unlock()
@@ -255,7 +283,7 @@ func (l *Lab) removeParked(p *parkedInv) {
 // controller releases parked invocations, lowest (prio, arrival) first, each time the log has been quiet (no
 // non-continuous-check event) for the settle window: everything that can make progress without the gate has done so.
 func (l *Lab) controller(stop <-chan struct{}) {
-	t := time.NewTicker(200 * time.Microsecond)
+	t := time.NewTicker(beatPeriod)
 	defer t.Stop()
 	for {
 		select {
@@ -270,6 +298,7 @@ func (l *Lab) controller(stop <-chan struct{}) {
 		case <-t.C:
 		}
 		l.mu.Lock()
+		l.beat++
 		if len(l.parked) > 0 && time.Since(l.lastProgress) >= l.settle {
 			sort.SliceStable(l.parked, func(i, j int) bool {
 				if l.parked[i].prio != l.parked[j].prio {
@@ -277,11 +306,15 @@ func (l *Lab) controller(stop <-chan struct{}) {
 				}
 				return l.parked[i].seq < l.parked[j].seq
 			})
-			// a long hold (prio >= LongHoldGate) is not released before LongHold has elapsed
-			idx := -1
+			// a long hold (prio >= LongHoldGate) is released once the continuous checks above it were re-run, or expires
+			idx, expired := -1, false
 			for i, q := range l.parked {
-				if q.prio < LongHoldGate || time.Since(q.since) >= LongHold {
+				if q.prio < LongHoldGate || l.contChecksRerun(q.tag) {
 					idx = i
+					break
+				}
+				if time.Duration(l.beat-q.sinceBeat)*beatPeriod >= LongHoldMax && time.Since(q.since) >= LongHoldMax {
+					idx, expired = i, true
 					break
 				}
 			}
@@ -291,12 +324,40 @@ func (l *Lab) controller(stop <-chan struct{}) {
 			}
 			p := l.parked[idx]
 			l.parked = append(l.parked[:idx], l.parked[idx+1:]...)
-			l.lastProgress = time.Now()
-			l.add(Event{Kind: EvRelease, Tag: p.tag, N: p.n, PlanIdx: -1, At: time.Since(l.start)})
+			l.progressed()
+			e := Event{Kind: EvRelease, Tag: p.tag, N: p.n, PlanIdx: -1, At: time.Since(l.start)}
+			if expired {
+				e.Err = LongHoldExpired
+			}
+			l.add(e)
 			close(p.ch)
 		}
 		l.mu.Unlock()
 	}
+}
+
+// contChecksRerun reports whether every continuous check (delay class other than 1 h) above the sequence action tag —
+// the plan's and its block's — has been entered at least twice (l.mu must be held).
+func (l *Lab) contChecksRerun(tag string) bool {
+	ref, ok := ParseTag(tag)
+	if !ok || !ref.IsSeq() {
+		return true
+	}
+	ps := &l.sc.Plans[ref.Plan]
+	for _, scope := range []int{-1, ref.Block} {
+		cs := ps.Cont
+		if scope >= 0 {
+			cs = ps.Blocks[scope].Cont
+		}
+		refs := l.sc.GroupRefs(ref.Plan, scope, 2)
+		if cs == nil || len(refs) == 0 || cs.Delay == 3 {
+			continue
+		}
+		if l.calls[refs[0].Tag()] < 2 {
+			return false
+		}
+	}
+	return true
 }
 
 // quiet reports how long no non-continuous-check progress was seen, and whether anything the harness controls is
@@ -304,7 +365,11 @@ func (l *Lab) controller(stop <-chan struct{}) {
 func (l *Lab) quiet() (since time.Duration, pending bool) {
 	l.mu.Lock()
 	defer l.mu.Unlock()
-	return time.Since(l.lastProgress), l.openNonCont > 0 || len(l.parked) > 0
+	since = time.Since(l.lastProgress)
+	if observed := time.Duration(l.beat-l.progressBeat) * beatPeriod; observed < since {
+		since = observed
+	}
+	return since, l.openNonCont > 0 || len(l.parked) > 0 || l.openWrites > 0
 }
 
 func (l *Lab) openTotal() int {
@@ -443,9 +508,10 @@ func (v *RecVault) record(w *WriteRec, f func() error) error {
 		w.Tag = w.ID.String()
 	}
 	if !w.Cont {
-		l.lastProgress = time.Now()
+		l.progressed()
 	}
 	l.add(Event{Kind: EvWriteBegin, W: w, Tag: w.Tag, PlanIdx: w.PlanIdx, At: time.Since(l.start)})
+	l.openWrites++
 	l.mu.Unlock()
 
 	if d := l.sc.WriteLatUs; d > 0 {
@@ -469,9 +535,10 @@ func (v *RecVault) record(w *WriteRec, f func() error) error {
 	w2 := *w
 	w2.Err = err
 	if !w.Cont {
-		l.lastProgress = time.Now()
+		l.progressed()
 	}
 	l.add(Event{Kind: EvWriteEnd, W: &w2, Tag: w.Tag, PlanIdx: w.PlanIdx, At: time.Since(l.start)})
+	l.openWrites--
 	l.nWrites++
 	n := l.nWrites
 	cb := l.onWriteEnd
@@ -492,26 +559,39 @@ func (v *RecVault) Create(ctx context.Context, p *workflow.Plan) error {
 
 func (v *RecVault) UpdatePlan(ctx context.Context, p *workflow.Plan) error {
 	w := &WriteRec{Obj: workflow.OTPlan, ID: p.ID, State: *p.State, Reason: p.Reason}
+	w.Full = &workflow.Plan{ID: p.ID, Name: p.Name, Descr: p.Descr, GroupID: p.GroupID, Meta: append([]byte(nil), p.Meta...),
+		State: copyState(p.State), SubmitTime: p.SubmitTime, Reason: p.Reason}
 	return v.record(w, func() error { return v.Vault.UpdatePlan(ctx, p) })
 }
 
 func (v *RecVault) UpdateBlock(ctx context.Context, b *workflow.Block) error {
 	w := &WriteRec{Obj: workflow.OTBlock, ID: b.ID, State: *b.State}
+	nb := &workflow.Block{ID: b.ID, Key: b.Key, Name: b.Name, Descr: b.Descr, EntranceDelay: b.EntranceDelay, ExitDelay: b.ExitDelay,
+		Concurrency: b.Concurrency, ToleratedFailures: b.ToleratedFailures, State: copyState(b.State)}
+	nb.SetPlanID(b.GetPlanID())
+	w.Full = nb
 	return v.record(w, func() error { return v.Vault.UpdateBlock(ctx, b) })
 }
 
 func (v *RecVault) UpdateChecks(ctx context.Context, c *workflow.Checks) error {
 	w := &WriteRec{Obj: workflow.OTCheck, ID: c.ID, State: *c.State}
+	nc := &workflow.Checks{ID: c.ID, Key: c.Key, Delay: c.Delay, State: copyState(c.State)}
+	nc.SetPlanID(c.GetPlanID())
+	w.Full = nc
 	return v.record(w, func() error { return v.Vault.UpdateChecks(ctx, c) })
 }
 
 func (v *RecVault) UpdateSequence(ctx context.Context, s *workflow.Sequence) error {
 	w := &WriteRec{Obj: workflow.OTSequence, ID: s.ID, State: *s.State}
+	ns := &workflow.Sequence{ID: s.ID, Key: s.Key, Name: s.Name, Descr: s.Descr, State: copyState(s.State)}
+	ns.SetPlanID(s.GetPlanID())
+	w.Full = ns
 	return v.record(w, func() error { return v.Vault.UpdateSequence(ctx, s) })
 }
 
 func (v *RecVault) UpdateAction(ctx context.Context, a *workflow.Action) error {
 	w := &WriteRec{Obj: workflow.OTAction, ID: a.ID, State: *a.State, Attempts: CopyAttempts(a.Attempts)}
+	w.Full = copyAction(a)
 	return v.record(w, func() error { return v.Vault.UpdateAction(ctx, a) })
 }
 
